@@ -7,7 +7,7 @@ import json, os, re, shutil, subprocess, sys
 HERE = os.path.dirname(os.path.dirname(os.path.abspath(__file__)))
 prop, label = sys.argv[1], sys.argv[2]
 extra = sys.argv[3:]
-src = '/tmp/%s/%s/%s' % ({'A': 'seedout', 'B': 'seedout', 'C': 'seedout2', 'D': 'seedout2'}.get(label, 'seedout3'), prop, label)
+src = '/tmp/%s/%s/%s' % ({'A': 'seedout', 'B': 'seedout', 'C': 'seedout2', 'D': 'seedout2', 'E': 'seedout3', 'F': 'seedout3'}.get(label, 'seedout4'), prop, label)
 dst = os.path.join(HERE, 'seeded', '%s-%s' % (prop, label))
 os.makedirs(dst, exist_ok=True)
 for name in ('patch.diff', 'demo.py', 'notes.md'):
